@@ -239,8 +239,14 @@ func verifJSONNumberAt(s string, i int) (float64, int, bool) {
 		if i >= len(s) || s[i] < '0' || s[i] > '9' {
 			return 0, i, false
 		}
+		ed := 0
 		for i < len(s) && s[i] >= '0' && s[i] <= '9' {
 			i++
+			ed++
+		}
+		if ed > 2 {
+			// may overflow float64 (an error in the real decoder): outside the model
+			verifUnreachable("MODEL:json-number-exponent-too-long")
 		}
 	}
 	_ = start
